@@ -63,6 +63,8 @@ pub fn run(cfg: &RunCfg) -> Report {
 		(Api::ScopedTry, false),
 		(Api::ScopedTry, true),
 	];
+	// every flavour also from inside a destructor that runs during an unrelated unwind
+	let apis: Vec<(Api, bool, bool)> = apis.iter().flat_map(|&(a, l)| [(a, l, false), (a, l, true)]).collect();
 	let apis = &apis;
 	let (mut rep, _) = par_run(cfg, shapes.len() as u64, |i, rep| {
 		let (arena_spec, target) = &shapes[i as usize];
@@ -75,13 +77,14 @@ pub fn run(cfg: &RunCfg) -> Report {
 				if mode == Mode::Shared && !readable {
 					continue;
 				}
-				for &(api, lent) in apis.iter() {
+				for &(api, lent, unwind) in apis.iter() {
 					let acq = Acq {
 						target: target.clone(),
 						mode,
 						api,
 						lent,
 						panic: true,
+						unwind,
 					};
 					let d = acq_desc(&acq);
 					let bad_before: u32 = w.g().locks.iter().map(|l| l.bad_releases).sum();
@@ -164,6 +167,7 @@ pub fn run(cfg: &RunCfg) -> Report {
 					// waiting threads proceed = the locks can be taken again at once
 					let again = Acq {
 						panic: false,
+						unwind: false,
 						api: Api::GuardUnlock,
 						lent: false,
 						..acq.clone()
@@ -225,6 +229,6 @@ pub fn run(cfg: &RunCfg) -> Report {
 		}
 	});
 	rep.exhaustive = false;
-	rep.rule = format!("systematic product: every shape of sizes 1..{max_n} (families R, M, Poisonable<R>, Poisonable<M>, mixed; single, boxed/ref/retrying in every arrangement, nested, poisonable-wrapped, owned/boxed/retrying units) x {{write, read}} x {{guard, guard+unlock, try, scoped owned key, scoped lent key, scoped_try owned, scoped_try lent}} with a typed panic raised inside the critical section (and, for scoped calls, also from a destructor that runs while the thread is already unwinding from another panic); after the unwind is caught at the client boundary: payload must be the injected one, the caller holds nothing, no release was audited as bad, the key is obtainable, and the same locks are re-acquired at once");
+	rep.rule = format!("systematic product: every shape of sizes 1..{max_n} (families R, M, Poisonable<R>, Poisonable<M>, mixed; single, boxed/ref/retrying in every arrangement, nested, poisonable-wrapped, owned/boxed/retrying units) x {{write, read}} x {{guard, guard+unlock, try, scoped owned key, scoped lent key, scoped_try owned, scoped_try lent}} with a typed panic raised inside the critical section (and, for scoped calls, also from a destructor that runs while the thread is already unwinding from another panic); after the unwind is caught at the client boundary: payload must be the injected one, the caller holds nothing, no release was audited as bad, the key is obtainable, and the same locks are re-acquired at once; every case is also run from inside a destructor during an unrelated unwind (the panic of the critical section is then a second, nested panic)");
 	rep
 }
